@@ -18,7 +18,7 @@ open Set
 /-- a base learner's (weight, learning rate, loss) -/
 abbrev Tri := ℝ × ℝ × ℝ
 
-def Tri.den (t : Tri) (x : ℝ) : ℝ := 1 / t.1 + t.2.1 * (t.2.2 - x)
+noncomputable def Tri.den (t : Tri) (x : ℝ) : ℝ := 1 / t.1 + t.2.1 * (t.2.2 - x)
 noncomputable def Tri.pole (t : Tri) : ℝ := t.2.2 + 1 / (t.1 * t.2.1)
 
 /-- `f` -/
@@ -152,5 +152,187 @@ theorem barrier_ge_term (T : List Tri) (hT : ∀ t ∈ T, TriOk t) (x : ℝ) (hb
     · linarith
     · have := ih (fun u hu => hT u (by simp [hu])) (fun u hu => hb u (by simp [hu])) ht'
       linarith
+
+theorem exists_argmin (T : List Tri) (hne : T ≠ []) (f : Tri → ℝ) : ∃ m ∈ T, ∀ t ∈ T, f m ≤ f t := by
+  induction T with
+  | nil => exact absurd rfl hne
+  | cons s T ih =>
+    by_cases hT : T = []
+    · subst hT; exact ⟨s, by simp, by simp⟩
+    · obtain ⟨m, hm, hmin⟩ := ih hT
+      by_cases h : f s ≤ f m
+      · refine ⟨s, by simp, ?_⟩
+        intro t ht
+        rcases List.mem_cons.mp ht with rfl | ht
+        · exact le_refl _
+        · exact le_trans h (hmin t ht)
+      · refine ⟨m, by simp [hm], ?_⟩
+        intro t ht
+        rcases List.mem_cons.mp ht with rfl | ht
+        · exact le_of_lt (not_le.mp h)
+        · exact hmin t ht
+
+theorem Tri.loss_lt_pole (t : Tri) (h : TriOk t) : t.2.2 < t.pole := by
+  unfold Tri.pole
+  have : 0 < 1 / (t.1 * t.2.1) := by have := h.1; have := h.2; positivity
+  linarith
+
+/-- **the first bracket has exactly one root**: among all multipliers that keep every new weight
+positive there is exactly one with `f = 1`, and it lies between the smallest and the largest loss
+(the interval the repaired `_log_barrier_omd` bisects) -/
+theorem barrier_unique_root (T : List Tri) (hne : T ≠ []) (hT : ∀ t ∈ T, TriOk t)
+    (hsum : (T.map (fun t => t.1)).sum = 1) :
+    ∃ x, Below T x ∧ barrier T x = 1 ∧ (∀ y, Below T y → barrier T y = 1 → y = x) ∧
+      (∃ m ∈ T, (∀ t ∈ T, m.2.2 ≤ t.2.2) ∧ m.2.2 ≤ x) ∧ (∃ M ∈ T, (∀ t ∈ T, t.2.2 ≤ M.2.2) ∧ x ≤ M.2.2) := by
+  obtain ⟨tm, htm, hmin⟩ := exists_argmin T hne (fun t => t.2.2)
+  obtain ⟨tM, htM, hmax⟩ := exists_argmin T hne (fun t => -t.2.2)
+  obtain ⟨tP, htP, hpole⟩ := exists_argmin T hne (fun t => t.pole)
+  simp only [neg_le_neg_iff] at hmax
+  set lo := tm.2.2 with hlo
+  have hokP := hT tP htP
+  have hloP : lo < tP.pole := lt_of_le_of_lt (hmin tP htP) (tP.loss_lt_pole hokP)
+  have below_of_lt : ∀ x, x < tP.pole → Below T x := fun x hx t ht => lt_of_lt_of_le hx (hpole t ht)
+  have hblo : Below T lo := below_of_lt lo hloP
+  have hflo : barrier T lo ≤ 1 := by rw [← hsum]; exact barrier_le_sum T hT lo hmin
+  -- a point before the first pole where one term alone is at least 1
+  have hη : 0 < tP.2.1 := hokP.2
+  set b := max lo (tP.pole - 1 / tP.2.1) with hb
+  have hbP : b < tP.pole := by
+    rw [hb]; apply max_lt hloP
+    have : 0 < 1 / tP.2.1 := by positivity
+    linarith
+  have hbb : Below T b := below_of_lt b hbP
+  have hfb : 1 ≤ barrier T b := by
+    have hden : tP.den b ≤ 1 := by
+      rw [tP.den_eq hokP]
+      have h1 : tP.pole - 1 / tP.2.1 ≤ b := le_max_right _ _
+      have : tP.2.1 * (tP.pole - b) ≤ tP.2.1 * (1 / tP.2.1) := by
+        apply mul_le_mul_of_nonneg_left _ hη.le; linarith
+      have h2 : tP.2.1 * (1 / tP.2.1) = 1 := by field_simp
+      linarith
+    have hdpos : 0 < tP.den b := (tP.den_pos_iff hokP b).mpr hbP
+    have : 1 ≤ 1 / tP.den b := by rw [le_div_iff₀ hdpos]; linarith
+    exact le_trans this (barrier_ge_term T hT b hbb tP htP)
+  have hlob : lo ≤ b := le_max_left _ _
+  have hcont : ContinuousOn (barrier T) (Icc lo b) :=
+    (barrier_continuousOn T hT).mono (fun x hx => below_of_lt x (lt_of_le_of_lt hx.2 hbP))
+  obtain ⟨x, hx, hfx⟩ := intermediate_value_Icc hlob hcont ⟨hflo, hfb⟩
+  have hbx : Below T x := below_of_lt x (lt_of_le_of_lt hx.2 hbP)
+  have huniq : ∀ y, Below T y → barrier T y = 1 → y = x := by
+    intro y hy hfy
+    rcases lt_trichotomy y x with h | h | h
+    · have := barrier_strictMono T hne hT y x h hbx; linarith
+    · exact h
+    · have := barrier_strictMono T hne hT x y h hy; linarith
+  refine ⟨x, hbx, hfx, huniq, ⟨tm, htm, hmin, hx.1⟩, ⟨tM, htM, hmax, ?_⟩⟩
+  -- the root is not right of the largest loss
+  by_contra hcon
+  have hlt : tM.2.2 < x := not_le.mp hcon
+  have hbM : Below T tM.2.2 := fun t ht => lt_trans hlt (hbx t ht)
+  have h1 : 1 ≤ barrier T tM.2.2 := by rw [← hsum]; exact sum_le_barrier T hT _ hmax hbM
+  have := barrier_strictMono T hne hT _ x hlt hbx
+  linarith
+
+/-! ### the tie to the rational model -/
+
+/-- the model's three lists as real triples (stops at the shortest, like `zip`) -/
+def tris : List Rat → List Rat → List Rat → List Tri
+  | p :: ps, e :: es, l :: ls => ((p : ℝ), (e : ℝ), (l : ℝ)) :: tris ps es ls
+  | _, _, _ => []
+
+theorem barrier_tris (ps etas losses : List Rat) (lam : Rat) :
+    barrier (tris ps etas losses) (lam : ℝ) = ((((omdDenoms ps etas losses lam).map (fun d => 1 / d)).sum : Rat) : ℝ) := by
+  induction ps generalizing etas losses with
+  | nil => simp [tris, omdDenoms, barrier]
+  | cons p ps ih =>
+    cases etas with
+    | nil => simp [tris, omdDenoms, barrier]
+    | cons e es =>
+      cases losses with
+      | nil => simp [tris, omdDenoms, barrier]
+      | cons l ls =>
+        simp only [tris, omdDenoms, barrier, List.map_cons, List.sum_cons, ih es ls, Tri.den]
+        push_cast
+        ring
+
+theorem tris_ok (ps etas losses : List Rat) (hp : ∀ p ∈ ps, 0 < p) (he : ∀ e ∈ etas, 0 < e) :
+    ∀ t ∈ tris ps etas losses, TriOk t := by
+  induction ps generalizing etas losses with
+  | nil => simp [tris]
+  | cons p ps ih =>
+    cases etas with
+    | nil => simp [tris]
+    | cons e es =>
+      cases losses with
+      | nil => simp [tris]
+      | cons l ls =>
+        intro t ht
+        simp only [tris, List.mem_cons] at ht
+        rcases ht with rfl | ht
+        · exact ⟨by show (0 : ℝ) < (p : ℝ); exact_mod_cast hp p (by simp), by show (0 : ℝ) < (e : ℝ); exact_mod_cast he e (by simp)⟩
+        · exact ih es ls (fun q hq => hp q (by simp [hq])) (fun q hq => he q (by simp [hq])) t ht
+
+/-- `update(λ)` of the model is defined exactly when λ is left of every pole -/
+theorem below_tris_iff (ps etas losses : List Rat) (lam : Rat) (hp : ∀ p ∈ ps, 0 < p) (he : ∀ e ∈ etas, 0 < e) :
+    Below (tris ps etas losses) (lam : ℝ) ↔ ∀ d ∈ omdDenoms ps etas losses lam, 0 < d := by
+  induction ps generalizing etas losses with
+  | nil => simp [tris, omdDenoms, Below]
+  | cons p ps ih =>
+    cases etas with
+    | nil => simp [tris, omdDenoms, Below]
+    | cons e es =>
+      cases losses with
+      | nil => simp [tris, omdDenoms, Below]
+      | cons l ls =>
+        have hok : TriOk ((p : ℝ), (e : ℝ), (l : ℝ)) :=
+          ⟨by show (0 : ℝ) < (p : ℝ); exact_mod_cast hp p (by simp), by show (0 : ℝ) < (e : ℝ); exact_mod_cast he e (by simp)⟩
+        have ih' := ih es ls (fun q hq => hp q (by simp [hq])) (fun q hq => he q (by simp [hq]))
+        have hhead : ((lam : ℝ) < Tri.pole ((p : ℝ), (e : ℝ), (l : ℝ))) ↔ 0 < 1 / p + e * (l - lam) := by
+          rw [← Tri.den_pos_iff _ hok]
+          unfold Tri.den
+          constructor
+          · intro h; have : ((1 / p + e * (l - lam) : Rat) : ℝ) > 0 := by push_cast; exact h
+            exact_mod_cast this
+          · intro h; have : (0 : ℝ) < ((1 / p + e * (l - lam) : Rat) : ℝ) := by exact_mod_cast h
+            push_cast at this; exact this
+        simp only [tris, omdDenoms, Below, List.mem_cons, forall_eq_or_imp]
+        unfold Below at ih'
+        rw [hhead, ih']
+
+theorem tris_sum (ps etas losses : List Rat) (h1 : etas.length = ps.length) (h2 : losses.length = ps.length) :
+    ((tris ps etas losses).map (fun t => t.1)).sum = ((ps.sum : Rat) : ℝ) := by
+  induction ps generalizing etas losses with
+  | nil => simp [tris]
+  | cons p ps ih =>
+    cases etas with
+    | nil => simp at h1
+    | cons e es =>
+      cases losses with
+      | nil => simp at h2
+      | cons l ls =>
+        simp only [tris, List.map_cons, List.sum_cons, ih es ls (by simpa using h1) (by simpa using h2)]
+        push_cast; ring
+
+theorem tris_ne (ps etas losses : List Rat) (hne : ps ≠ []) (h1 : etas.length = ps.length) (h2 : losses.length = ps.length) :
+    tris ps etas losses ≠ [] := by
+  cases ps with
+  | nil => exact absurd rfl hne
+  | cons p ps =>
+    cases etas with
+    | nil => simp at h1
+    | cons e es =>
+      cases losses with
+      | nil => simp at h2
+      | cons l ls => simp [tris]
+
+/-- the statement for the model's lists -/
+theorem first_bracket_root_model (ps etas losses : List Rat) (hne : ps ≠ []) (h1 : etas.length = ps.length)
+    (h2 : losses.length = ps.length) (hp : ∀ p ∈ ps, 0 < p) (he : ∀ e ∈ etas, 0 < e) (hsum : ps.sum = 1) :
+    ∃ x : ℝ, Below (tris ps etas losses) x ∧ barrier (tris ps etas losses) x = 1 ∧
+      (∀ y, Below (tris ps etas losses) y → barrier (tris ps etas losses) y = 1 → y = x) ∧
+      (∃ m ∈ tris ps etas losses, (∀ t ∈ tris ps etas losses, m.2.2 ≤ t.2.2) ∧ m.2.2 ≤ x) ∧
+      (∃ M ∈ tris ps etas losses, (∀ t ∈ tris ps etas losses, t.2.2 ≤ M.2.2) ∧ x ≤ M.2.2) :=
+  barrier_unique_root _ (tris_ne ps etas losses hne h1 h2) (tris_ok ps etas losses hp he)
+    (by rw [tris_sum ps etas losses h1 h2, hsum]; norm_num)
 
 end Coba.C16
